@@ -128,12 +128,15 @@ func (d *DFPNSolver) Prove(g *tak.Position) (ProofResult, DFPNStats) {
 	if attacker == tak.NoColor {
 		attacker = g.ToMove()
 	}
-	if attacker != d.attacker {
+	if attacker != d.attacker || uint(g.Size()) != d.c.Size {
 		// Stored bounds award draws to the opponent of the attacker
-		// they were computed for.
+		// they were computed for, and neither they (the hash does
+		// not cover the board size) nor the pooled positions can be
+		// reused on a board of another size.
 		for i := range d.table.entries {
 			d.table.entries[i] = entry{}
 		}
+		d.pool = positionPool{}
 		d.attacker = attacker
 	}
 	d.c = bitboard.Precompute(uint(g.Size()))
